@@ -13,6 +13,9 @@ NAN = float('nan')
 INF = float('inf')
 KINDS = ['KMixed', 'KFloat', 'KInt']
 DERIVS = ['natural', 'sorted', 'shuffled', 'selected', 'concatenated', 'regrown']
+# derivations that resize / rebuild / re-derive after the rows were rearranged (fewer sources each, see generate)
+DERIVS2 = ['reordered_grown', 'grown_reordered', 'shrunk', 'deleted_grown', 'merged_grown', 'concat_grown', 'unpickled',
+           'aliased', 'late_columns', 'sel_sel_sorted', 'ends_fixed']
 OPS = {'CEq': operator.eq, 'CNe': operator.ne, 'CLt': operator.lt, 'CLe': operator.le, 'CGt': operator.gt,
        'CGe': operator.ge}
 OPNAMES = ['CEq', 'CNe', 'CLt', 'CLe', 'CGt', 'CGe']
@@ -170,14 +173,25 @@ class C02:
     oracle_imports = ['From DM Require Import Run.SC02.']
     model_imports = ['From DM Require Import Run.SC02 Run.RC02.']
     exhaustive = False
-    rule = ('3 column types x 6 derivations of the source (natural, ops.sort, ops.shuffle, a selection/slice of a larger '
-            'table, a << b, a selection grown again and filled in) x cell vectors of length 0..6 (thorough: ..10) drawn from a 12-15 value alphabet per type '
-            '(ints incl. 2^53+1 / int64 bounds, floats incl. nan, +-inf, -0.0, text, None) x references {int, float incl. '
-            'nan/+-inf/-0.0, text, numeric text, None, bool, same-length list/tuple (incl. the column\'s own cells, '
-            'wrong length), set (0-4 members incl. nan, also with the NaN members being the very float objects the '
-            'MixedColumn stores), 12 plain def/lambda functions, 6 types} x all six operators per '
-            'case; plus one sweep of every scalar reference against a column holding the whole alphabet. Rows are '
-            'identified by a unique payload column p and the row ids; a FloatColumn e rides along. The source is dumped '
+    rule = ('3 column types x 17 derivations of the source x cell vectors of length 0..6 (thorough: ..10) drawn from a '
+            '12-15 value alphabet per type (ints incl. 2^53+1 / int64 bounds, floats incl. nan, +-inf, -0.0, text, None) x '
+            'references {int, float incl. nan/+-inf/-0.0, text, numeric text, None, bool, same-length list/tuple (incl. the '
+            'column\'s own cells, wrong length), set (0-4 members incl. nan, also with the NaN members being the very float '
+            'objects the MixedColumn stores), 12 plain def/lambda functions, 6 types} x all six operators per case; plus one '
+            'sweep of every scalar reference against a column holding the whole alphabet. Derivations: natural, ops.sort, '
+            'ops.shuffle, a selection/slice of a larger table, a << b, a selection grown again and filled in; and (fewer '
+            'sources each) the resize / re-derive zoo: reordered (sort, shuffle, index list, reversed slice, ends fixed, '
+            'newest row moved away from the end) then grown and filled; grown then reordered (then grown again); shrunk '
+            '(after reordering; then grown: ids handed out again); rows deleted (del dm[i], del dm[[..]], the newest row '
+            'included) then grown; a | b, a & b, a ^ b of two selections then grown; reordered << reordered, reordered '
+            'and grown; unpickled (protocols 0, 2, highest) then grown; column aliases made before and after deriving, '
+            'the aliased column extended once; payload columns added AFTER the derivation and after the growth; a '
+            'selection of a selection of a sorted table; tables of >= 6 rows whose first and last row (id) stay in place '
+            'while the interior is permuted (ids 0..n-1, an id range with offset, ids with gaps, a grown table), also grown. '
+            'Every row carries a unique payload p (MixedColumn) and side by side e = p/2 (FloatColumn) and i = 3p+1 '
+            '(IntColumn); the L0 oracle compares the row ids and EVERY column of the result with the positional '
+            'selection from the dumped source, and independently (Python side) every result row must be, cell for cell over '
+            'all columns and with its row id, a row of the source, in source order, no row repeated. The source is dumped '
             'before/after each comparison; the result must be a new DataMatrix sharing no column object or cell '
             'storage with the source. non-trivial = some operator selects a proper non-empty subset; distinct by '
             '(kind, derivation, cells, reference)')
@@ -186,7 +200,8 @@ class C02:
         'translator /verif/translate (pystmt.py, gen_select.py, gen_checktype.py): _compare dispatch chain, _issequence, '
         'op tests and per-cell tests of _compare_nan/_type/_set/_function/_value/_sequence, NumericColumn._compare_value/'
         '_compare_sequence, IntColumn.__eq__/__ne__ -> Gen/KSelect.v; the _checktype chains -> Gen/KCheck.v; loop '
-        'skeletons are pinned (expect_same), not translated',
+        'skeletons and the materialisation of the result by row id (DataMatrix._selectrowid, BaseColumn._getrowidkey, '
+        'NumericColumn._getrowidkey, NumericColumn._rowid_argsort: whole bodies) are pinned (expect_same), not translated',
         'hand-written CPython/NumPy models in Base/PyVal.v and Model/SelectRef.v (==, <, isinstance, math.isnan, np.isnan/'
         'isinf/where, element-wise comparison of a float64/int64 array with a Python number or list, iteration of an '
         'array yielding numpy scalars), exercised by the correspondence',
@@ -205,28 +220,110 @@ class C02:
         'compares set members exactly)',
         'a FloatColumn is not compared with a list mixing an integer beyond 2^53 and a number beyond int64 (NumPy then '
         'builds an object array and compares exactly; that dtype switch is not modelled)',
-        '_getrowidkey is modelled as lookup by row id (argsort/searchsorted of NumericColumn not modelled separately)',
+        '_getrowidkey is modelled as lookup by row id (the bodies of both _getrowidkey and of _rowid_argsort are pinned; '
+        'that argsort+searchsorted and the Index dict are lookups by id on duplicate-free ids is Props/C01.v); '
+        'C02_l_select_refines needs duplicate-free row ids in the source -- the derivation zoo is what checks that the '
+        'implementation keeps them so through resizes after reordering, deletions, merges, concatenation and pickling',
+        'floats of a reference are binary64 values (ref_wf: odd mantissa below 2^53), which is what harness/coqlit.py prints',
         'source unchanged / result is a new object are checked on the Python side (dump before/after, identity, '
         'np.shares_memory), not inside Coq',
     ]
 
     # ---- building the source ------------------------------------------------------------
     def build(self, kind, deriv, cells, seed):
-        """-> source DataMatrix whose column c holds a rearrangement of `cells`."""
-        from datamatrix import DataMatrix, FloatColumn, operations as ops
+        """-> source DataMatrix derived in the named way; its column c holds cells of `cells` (the old derivations:
+        a rearrangement of all of them; the newer ones may drop some and add alphabet fillers).  Every row carries a
+        unique payload p (MixedColumn) and, side by side, e = p / 2 (FloatColumn) and i = 3 p + 1 (IntColumn), so a
+        result row whose cells come from different source rows is visible in every column type."""
+        import pickle
+        from datamatrix import DataMatrix, FloatColumn, IntColumn, MixedColumn, operations as ops
         rnd = _random.Random(seed)
         ct = coltype(kind)
+        alphabet = CELLS[kind]
 
-        def table(cs, start):
+        def payload(dm, name, ps, key=None):
+            """(re)write the payload column `name` for the payload numbers ps at rows key (None: all rows)"""
+            vals = {'p': list(ps), 'e': [0.5 * x for x in ps], 'i': [3 * x + 1 for x in ps],
+                    't': ['t%d' % x for x in ps]}[name]
+            if not vals:
+                return
+            if key is None:
+                dm[name] = vals
+            else:
+                dm[name][key:] = vals
+
+        def table(cs, start, cols='pei'):
             dm = DataMatrix(length=len(cs))
-            dm.p = [start + i for i in range(len(cs))]
+            dm.p = MixedColumn
+            payload(dm, 'p', [start + j for j in range(len(cs))])
             dm.c = ct
             if cs:
                 dm.c = list(cs)
-            dm.e = FloatColumn
-            if cs:
-                dm.e = [0.5 * (start + i) for i in range(len(cs))]
+            for name in cols[1:]:
+                dm[name] = {'e': FloatColumn, 'i': IntColumn, 't': MixedColumn}[name]
+                payload(dm, name, [start + j for j in range(len(cs))])
             return dm
+
+        def fillers(m):
+            return [rnd.choice(alphabet) for _ in range(m)]
+
+        def grow(dm, cs, start):
+            """lengthen dm by len(cs) rows and fill every column of the new rows"""
+            k = len(dm)
+            if not cs:
+                return dm
+            dm.length = k + len(cs)
+            dm.c[k:] = list(cs)
+            ps = [start + j for j in range(len(cs))]
+            done = set()
+            for name, col in list(dm._cols.items()):
+                if name in ('p', 'e', 'i', 't') and id(col) not in done:
+                    done.add(id(col))
+                    payload(dm, name, ps, k)
+            return dm
+
+        def with_extras(cs, extra):
+            """cs with `extra` alphabet fillers inserted -> (cells, sorted positions of the fillers)"""
+            pos = sorted(rnd.sample(range(len(cs) + extra), extra))
+            out, it = [], iter(cs)
+            for j in range(len(cs) + extra):
+                out.append(rnd.choice(alphabet) if j in pos else next(it))
+            return out, pos
+
+        def ends_fixed_perm(m):
+            """a permutation of range(m) keeping the first and last position and moving some interior row"""
+            mid = list(range(1, m - 1))
+            for _ in range(8):
+                rnd.shuffle(mid)
+                if mid != list(range(1, m - 1)):
+                    break
+            else:
+                mid.reverse()
+            return [0] + mid + [m - 1]
+
+        def reorder(dm, mode=None):
+            m = len(dm)
+            mode = mode or rnd.choice(['sort', 'shuffle', 'index', 'reverse', 'ends', 'lastmoved'])
+            if m < 2:
+                return dm[:]
+            if mode == 'sort':
+                return ops.sort(dm, by=dm.c)
+            if mode == 'shuffle':
+                _random.seed(rnd.randint(0, 10 ** 6))
+                return ops.shuffle(dm)
+            if mode == 'reverse':
+                return dm[::-1]
+            if mode == 'ends' and m >= 4:
+                return dm[ends_fixed_perm(m)]
+            perm = list(range(m))
+            rnd.shuffle(perm)
+            if mode == 'lastmoved' and perm[-1] == m - 1:
+                # the row that was created last (largest row id) does not stay last
+                j = rnd.randrange(m - 1)
+                perm[j], perm[-1] = perm[-1], perm[j]
+            return dm[perm]
+
+        n = len(cells)
         if deriv == 'natural':
             return table(cells, 100)
         if deriv == 'sorted':
@@ -268,15 +365,152 @@ class C02:
                 cs.append(rnd.choice(CELLS[kind]) if i in pos else next(it))
             dm = table(cs, 100)
             sel = dm.p != {100 + i for i in pos}
-            if len(cells) > k:
-                sel.length = len(cells)
-                sel.c[k:] = list(cells[k:])
-                sel.p[k:] = [300 + i for i in range(len(cells) - k)]
-                sel.e[k:] = [0.5 * (300 + i) for i in range(len(cells) - k)]
-            return sel
+            return grow(sel, cells[k:], 300)
         if deriv == 'concatenated':
             k = rnd.randint(0, len(cells))
             return table(cells[:k], 100) << table(cells[k:], 200)
+        # ---- derivations that resize / rebuild after the rows were rearranged ----------------
+        k = rnd.randint(min(2, n), n)
+        if deriv == 'reordered_grown':
+            # rearranged (the newest row need not be last any more), then lengthened and filled in
+            dm = reorder(table(cells[:k], 100), rnd.choice(['sort', 'shuffle', 'lastmoved', 'lastmoved', 'reverse', 'ends']))
+            tail = list(cells[k:]) or fillers(rnd.randint(1, 2))
+            dm = grow(dm, tail, 300)
+            if rnd.random() < 0.3:
+                dm = grow(reorder(dm), fillers(1), 400)
+            return dm
+        if deriv == 'grown_reordered':
+            dm = grow(table(cells[:k], 100), cells[k:], 300)
+            dm = reorder(dm)
+            if rnd.random() < 0.5:
+                dm = grow(dm, fillers(rnd.randint(1, 2)), 400)
+            return dm
+        if deriv == 'shrunk':
+            cs = list(cells) + fillers(rnd.randint(1, 3))
+            dm = table(cs, 100)
+            if rnd.random() < 0.7:
+                dm = reorder(dm)
+            dm.length = n
+            if rnd.random() < 0.5:
+                dm = grow(dm, fillers(rnd.randint(1, 2)), 300)     # ids above the surviving maximum are handed out again
+            return dm
+        if deriv == 'deleted_grown':
+            cs, pos = with_extras(cells[:k], rnd.randint(1, 3))
+            if rnd.random() < 0.4 and len(cs) - 1 not in pos:
+                pos = pos[:-1] + [len(cs) - 1] if pos else [len(cs) - 1]   # the newest row goes: its id is reused
+                pos = sorted(set(pos))
+            dm = table(cs, 100)
+            how = rnd.randint(0, 2)
+            if how == 0:
+                dm = reorder(dm, 'index')
+                gone = sorted(rnd.sample(range(len(dm)), min(len(pos), len(dm))))
+            else:
+                gone = pos
+            if how == 1:
+                del dm[list(gone)]
+            else:
+                for j in reversed(gone):
+                    del dm[j]
+            return grow(dm, list(cells[k:]) or fillers(1), 300)
+        if deriv == 'merged_grown':
+            cs, _pos = with_extras(cells[:k], rnd.randint(1, 3))
+            base = table(cs, 100)
+            if rnd.random() < 0.5:
+                base = reorder(base)
+            m = len(base)
+            pa = [j for j in range(m) if rnd.random() < 0.6]
+            pb = [j for j in range(m) if rnd.random() < 0.6]
+            rnd.shuffle(pb)
+            a = base[pa] if pa else base[:0]
+            b = base[pb] if pb else base[:0]
+            how = rnd.randint(0, 2)
+            dm = (a | b) if how == 0 else (a & b) if how == 1 else (a ^ b)
+            return grow(dm, list(cells[k:]) or fillers(1), 300)
+        if deriv == 'concat_grown':
+            a = reorder(table(cells[:k], 100))
+            b = reorder(table(cells[k:], 200))
+            dm = a << b
+            if rnd.random() < 0.5:
+                dm = reorder(dm)
+            if rnd.random() < 0.6:
+                dm = grow(dm, fillers(rnd.randint(1, 2)), 300)
+            return dm
+        if deriv == 'unpickled':
+            dm = reorder(table(cells[:k], 100))
+            if rnd.random() < 0.4:
+                dm = dm.p != {100 + rnd.randrange(k + 1)}
+            dm = pickle.loads(pickle.dumps(dm, protocol=rnd.choice([0, 2, pickle.HIGHEST_PROTOCOL])))
+            return grow(dm, cells[k:], 300)
+        if deriv == 'aliased':
+            # c is also known as q (one column object under two names); derived tables un-alias, the alias is
+            # made again on the derived table and the table is grown (the shared column is extended once)
+            dm = table(cells[:k], 100)
+            dm.q = dm.c
+            dm = reorder(dm)
+            dm.r = dm.c
+            if rnd.random() < 0.5:
+                dm.u = dm.i
+            dm = grow(dm, cells[k:], 300)
+            if rnd.random() < 0.3:
+                dm = reorder(dm)
+            return dm
+        if deriv == 'late_columns':
+            # the payload columns e, i, t are added AFTER the table was derived (and before / after it is grown)
+            cs, pos = with_extras(cells[:k], rnd.randint(0, 2))
+            dm = reorder(table(cs, 100, cols='p'))
+            if pos:
+                dm = dm.p != {100 + j for j in pos}
+            late = ['e', 'i', 't']
+            rnd.shuffle(late)
+            cut = rnd.randint(0, 3)
+            for name in late[:cut]:
+                dm[name] = {'e': FloatColumn, 'i': IntColumn, 't': MixedColumn}[name]
+                payload(dm, name, [int(x) for x in dm.p])
+            dm = grow(dm, cells[k:], 300)
+            for name in late[cut:]:
+                dm[name] = {'e': FloatColumn, 'i': IntColumn, 't': MixedColumn}[name]
+                payload(dm, name, [int(x) for x in dm.p])
+            return dm
+        if deriv == 'sel_sel_sorted':
+            cs, pos = with_extras(cells, rnd.randint(2, 4))
+            base = table(cs, 100)
+            s = ops.sort(base, by=base.c)
+            half = len(pos) // 2
+            s1 = s.p != {100 + j for j in pos[:half]}
+            drop = {100 + j for j in pos[half:]}
+            how = rnd.randint(0, 2)
+            if how == 0:
+                s2 = s1.p != drop
+            elif how == 1:
+                s2 = s1.p == (lambda x: x not in drop)
+            else:
+                keep = [j for j, x in enumerate(s1.p) if x not in drop]
+                s2 = s1[keep] if keep else s1.p != {x for x in s1.p}
+            if rnd.random() < 0.3:
+                s2 = grow(s2, fillers(1), 300)
+            return s2
+        if deriv == 'ends_fixed':
+            # >= 6 rows; the first and the last row (and their row ids) stay in place, the interior is permuted:
+            # end-point tests cannot tell such a table from an untouched one
+            cs = list(cells) + fillers(max(0, 6 - n))
+            how = rnd.randint(0, 3)
+            if how == 0:                                       # ids 0..m-1
+                dm = table(cs, 100)
+            elif how == 1:                                     # ids k0..k0+m-1: a slice of a longer table
+                pre, post = rnd.randint(1, 2), rnd.randint(0, 2)
+                dm = table(fillers(pre) + cs + fillers(post), 100)[pre:pre + len(cs)]
+            elif how == 2:                                     # ids with gaps, ascending
+                allc, pos = with_extras(cs[1:-1], rnd.randint(1, 2))
+                dm = table(cs[:1] + allc + cs[-1:], 100)
+                dm = dm.p != {101 + j for j in pos}
+            else:                                              # a grown table
+                dm = grow(table(cs[:3], 100), cs[3:], 300)
+            dm = dm[ends_fixed_perm(len(dm))]
+            if rnd.random() < 0.35:
+                dm = grow(dm, fillers(1), 400)
+            elif rnd.random() < 0.3:
+                dm = dm[ends_fixed_perm(len(dm))]
+            return dm
         raise AssertionError(deriv)
 
     # ---- one case ------------------------------------------------------------------------
@@ -287,9 +521,17 @@ class C02:
         ops = inp['ops']
         with warnings.catch_warnings():
             warnings.simplefilter('ignore')
-            dm = self.build(kind, deriv, cells, seed)
-            ref = self.make_ref(inp['ref'], dm)
-            before = dump(dm)
+            try:
+                dm = self.build(kind, deriv, cells, seed)
+                ref = self.make_ref(inp['ref'], dm)
+                before = dump(dm)
+            except Exception as e:      # noqa: BLE001
+                # deriving the source is not the operation under test, but a crash is not a verdict either: on the
+                # unchanged tree every recipe of build() runs through for every cell vector
+                return {'input': inp, 'observed': [{'build': '%s: %s' % (type(e).__name__, e)}],
+                        'pyfail': 'deriving the source (%s) raised %s: %s' % (deriv, type(e).__name__, e),
+                        'oracle': 'true', 'model': 'true', 'nontrivial': False,
+                        'sig': 'build|%s|%s|%s|%s' % (kind, deriv, inp['cells'], seed), 'tags': [kind, deriv, 'build-raised']}
             src_lit = dump_lit(before)
             pyfail = None
             if src_lit is None or kind_of(dm.c) != kind:
@@ -327,6 +569,10 @@ class C02:
                     pyfail = '%s: %s' % (opn, why)
                 if len(set(len(c) for _n, _k, c in d[1])) > 1 or any(len(c) != len(d[0]) for _n, _k, c in d[1]):
                     pyfail = pyfail or '%s: result columns differ in length' % opn
+                else:
+                    why = self.rows_intact(before, d)
+                    if why and pyfail is None:
+                        pyfail = '%s: %s' % (opn, why)
                 obs_lits.append('(%s, ObsOk %s %s)' % (opn, lit[0], lit[1]))
                 pcol = [c for n, _k, c in d[1] if n == 'p']
                 observed.append({'op': opn, 'rows': pcol[0] if pcol else None})
@@ -353,6 +599,27 @@ class C02:
                 return 'nan' if v != v else ('inf' if math.isinf(v) else 'float')
             return {int: 'int', str: 'str', bool: 'bool', type(None): 'None'}.get(type(v), 'other')
         return t
+
+    def rows_intact(self, before, d):
+        """Python-side row integrity: every result row is, cell for cell over ALL columns (and with its row id), a row
+        of the source, no source row occurs more often than in the source, and the rows keep the source's order.
+        Rows are compared whole, so a result whose Mixed / Float / Int cells come from different source rows is seen
+        even when the payload p alone looks right."""
+        def rows(dd):
+            rid, cols = _canon(dd)
+            return [(rid[j],) + tuple(repr(c[j]) for _n, _k, c in cols) for j in range(len(rid))]
+        if [(n, k) for n, k, _c in before[1]] != [(n, k) for n, k, _c in d[1]]:
+            return 'result columns %r differ from the source columns %r' % (
+                [(n, k) for n, k, _c in d[1]], [(n, k) for n, k, _c in before[1]])
+        src, j = rows(before), 0
+        for r in rows(d):
+            while j < len(src) and src[j] != r:
+                j += 1
+            if j == len(src):
+                return ('result row %r is not a row of the source at or after the previous result row '
+                        '(cells of different rows mixed, a row repeated, or rows out of source order)' % (r,))
+            j += 1
+        return None
 
     def fresh(self, dm, res):
         if res is dm:
@@ -460,16 +727,31 @@ class C02:
         maxlen = 6 if tier == 'quick' else 10
         refs_per_source = 5 if tier == 'quick' else 6
         whiches = ['scalar', 'seq', 'set', 'pred', 'type', 'scalar', 'seq', 'set']
+        nsrc = 0
         for kind in KINDS:
-            for deriv in DERIVS:
+            for deriv in DERIVS + DERIVS2:
+                first = deriv in DERIVS
                 for n in range(0, maxlen + 1):
-                    for _ in range(1 if n == 0 else per_len):
+                    reps = (1 if n == 0 else per_len) if first else (1 if n < 3 else 2 if tier == 'quick' else 5)
+                    for _ in range(reps):
                         cells = [pyobs.enc(rng.choice(CELLS[kind])) for _ in range(n)]
                         seed = rng.randint(0, 10 ** 6)
-                        for j in range(refs_per_source):
+                        m = self.source_length(kind, deriv, cells, seed, n)
+                        nsrc += 1
+                        for j in range(refs_per_source if first else refs_per_source - 1):
+                            which = whiches[j % len(whiches)] if first else whiches[(j + nsrc) % 5]
                             add({'kind': kind, 'deriv': deriv, 'cells': cells, 'seed': seed, 'ops': OPNAMES,
-                                 'ref': self.random_ref(rng, kind, n, whiches[j % len(whiches)])})
+                                 'ref': self.random_ref(rng, kind, m, which)})
         return cases
+
+    def source_length(self, kind, deriv, cells, seed, default):
+        """the number of rows of the derived source (sequence references are drawn with that length)"""
+        try:
+            with warnings.catch_warnings():
+                warnings.simplefilter('ignore')
+                return len(self.build(kind, deriv, [pyobs.dec(c) for c in cells], seed))
+        except Exception:       # noqa: BLE001   (rerun reports it)
+            return default
 
     def shrink_candidates(self, inp):
         out = []
